@@ -18,6 +18,8 @@ import ast
 from sa.cfg import CFG
 from sa.core import AnalysisError, attr_chain, enclosing, norm, parents, resolve_callee, src, walk_no_nested
 
+from sa.cfg import ReachingDefs
+
 from . import common
 
 R1_MODULES = ("einx._src.namedtensor.", "einx._src.util.solver", "einx._src.frontend.util")
@@ -308,10 +310,63 @@ def r8(p, rep):
     if n < 3:
         raise AnalysisError("unrecognised idiom: equation-list handling in util.solver.solve not found")
 
+def r9(p, rep):
+    rep.rule("C02.R9", "one solution is taken from sympy's solution set only when the set has exactly one element (none / several raise)", "T-DOM (interval on len() from the dominating guards)", floor=1)
+    f = p.func("solve", "einx._src.util.solver")
+    cfg = common.cfg_of(f)
+    n = 0
+    for node in walk_no_nested(f.node):
+        sel = None
+        if isinstance(node, ast.Call) and isinstance(node.func, ast.Name) and node.func.id == "next" and node.args and isinstance(node.args[0], ast.Call) and isinstance(node.args[0].func, ast.Name) and node.args[0].func.id == "iter" and node.args[0].args:
+            sel = node.args[0].args[0]
+        elif isinstance(node, ast.Call) and isinstance(node.func, ast.Attribute) and node.func.attr == "pop" and not node.args:
+            sel = node.func.value
+        elif isinstance(node, ast.Subscript) and isinstance(node.ctx, ast.Load) and isinstance(node.slice, ast.Constant) and node.slice.value in (0, -1) and isinstance(node.value, ast.Call) and isinstance(node.value.func, ast.Name) and node.value.func.id in ("list", "tuple", "sorted") and node.value.args:
+            sel = node.value.args[0]
+        if not isinstance(sel, ast.Name):
+            continue
+        # only selections from the solver result: a reaching definition of the name is (derived from) the value
+        # sympy.solve returned
+        rd = ReachingDefs(cfg)
+        byid = {x.id: x for x in cfg.nodes}
+
+        def from_solver(at_node, name, depth=0):
+            if depth > 4 or at_node is None:
+                return False
+            for did in rd.defs_reaching(at_node, name):
+                d = byid[did]
+                val = getattr(d.ast, "value", None)
+                if val is None:
+                    continue
+                for c in ast.walk(val):
+                    if isinstance(c, ast.Call):
+                        r = p.resolve_expr(f.module, c.func, f.node)
+                        if r and r[0] == "external" and r[1] == "sympy.solve":
+                            return True
+                for x in ast.walk(val):
+                    if isinstance(x, ast.Name) and from_solver(d, x.id, depth + 1):
+                        return True
+            return False
+
+        src_ok = from_solver(cfg.node_for(node), sel.id)
+        if not src_ok:
+            continue
+        n += 1
+        use = cfg.node_for(node)
+        here = rd.defs_reaching(use, sel.id)
+        # a guard speaks about the same value only if the name was not rebound between the test and the use
+        facts = [(t, pol) for t, pol in cfg.guards_of_ast(node) if t is None or sel.id not in {x.id for x in ast.walk(t) if isinstance(x, ast.Name)} or (cfg.node_for(t) is not None and rd.defs_reaching(cfg.node_for(t), sel.id) == here)]
+        lo, hi = common.len_bounds(facts, sel.id)
+        ok = (lo, hi) == (1, 1)
+        rep.add("C02.R9", f"{f.qualname}:take-one({sel.id})", f"{f.module.rel}:{node.lineno}", ok, f"`{norm(node)}` is reached only with len({sel.id}) == 1" if ok else f"`{norm(node)}` is reached with len({sel.id}) in [{lo}, {hi if hi is not None else 'inf'}]: with several solutions an arbitrary one (set order) is reported as THE solution instead of raising SolveExceptionTooManySolutions - ambiguous sizes are silently resolved")
+    if n == 0:
+        raise AnalysisError("unrecognised idiom: no element is taken from sympy's solution set in util.solver.solve")
+
 
 def run(p, rep, tier):
     r1(p, rep)
     r8(p, rep)
+    r9(p, rep)
     rep.rule("C02.R2", "solver failures are mapped to RankError / AxisSizeError", "T-DOM try/except coverage over the call graph", floor=4)
     common.solver_failures_mapped(p, rep, "C02.R2")
     r3(p, rep)
@@ -321,6 +376,10 @@ def run(p, rep, tier):
     from . import c12
 
     c12.r6(p, rep)
+    from . import c07
+
+    rep.rule("C07.R1", "aliases of the solving helpers hand on every argument (einx.solve == einx.solve_axes)", "T-SIB (forwarding)", floor=1)
+    c07.aliases(p, rep)
     rep.assume("sympy honours integer=True / nonnegative=True and classifies unique / no / many solutions correctly")
     rep.assume("the solution set of an equation system does not depend on equation order")
     rep.info["undecided"] = "that the equation systems are the right ones, that common-subexpression elimination preserves the solution set (matches('(b 3)', len-4) is True on this tree), and sympy's own classification"
